@@ -62,6 +62,11 @@ func (x *Exec) regRanges(st *State) []Term {
 			out = append(out, "(<= "+string(val.L[2])+" 9223372036854775807)")
 			continue
 		}
+		if b, isB := v.Type().Underlying().(*types.Basic); isB && b.Info()&types.IsString != 0 && len(val.L) == 1 {
+			// a Go string is at most MaxInt bytes long
+			out = append(out, "(<= (str.len "+string(val.L[0])+") 9223372036854775807)")
+			continue
+		}
 		if len(val.L) != 1 {
 			continue
 		}
